@@ -208,6 +208,7 @@ func c16Items(c *Ctx) []pgen.FItem {
 			continue
 		}
 		seen[sigKey("toerror", s.P, s.R)] = true
+		s.NamedResults = i%2 == 1
 		items = append(items, pgen.ToErrorItem(id(), s))
 	}
 	return items
@@ -307,5 +308,11 @@ func c18Items(c *Ctx) []pgen.FItem {
 	add(pgen.FSig{P: []string{"[]string"}, R: []string{"string"}, Mode: "named"})
 	add(pgen.FSig{P: []string{"*SV"}, R: []string{"int"}, Mode: "named"})
 	add(pgen.FSig{P: []string{"*SV", "int"}, R: []string{"int"}, Mode: "named"})
+	// all-string parameter lists (a joined key would confuse ("a\x00","b") with ("a","\x00b"))
+	add(pgen.FSig{P: []string{"string", "string"}, R: []string{"string"}, Mode: "named"})
+	add(pgen.FSig{P: []string{"string", "string", "string"}, R: nil, Mode: "named"})
+	add(pgen.FSig{P: []string{"NStr", "string"}, R: []string{"int", "string"}, Mode: "blank"})
+	add(pgen.FSig{P: []string{"float64", "float64"}, R: []string{"int"}, Mode: "named"})
+	add(pgen.FSig{P: []string{"float64"}, R: nil, Mode: "named"})
 	return items
 }
